@@ -3,6 +3,9 @@ C18 — keys, signatures, addresses and number encodings obey their algebra; mul
 matching; Merkle root. Property theorems only (helper lemmas live in Proofs/Codec*.lean).
 -/
 import NeoModel.Proofs.CodecMultisig
+import NeoModel.Proofs.CodecMultisigPar
+import NeoModel.Proofs.CodecMerkle
+import NeoModel.Proofs.CodecBigInt
 namespace NeoModel.Codec
 variable {Sig Key : Type}
 
@@ -17,5 +20,105 @@ theorem greedy_iff (ok : Sig → Key → Bool) (sigs : List Sig) (keys : List Ke
 example : seqMatch (fun (s k : Nat) => s == k) [7, 9] [5, 7, 7, 9] = true
     ∧ ([7, 9] : List Nat).Sublist [5, 7, 7, 9] ∧ pairwiseOk (fun (s k : Nat) => s == k) [7, 9] [7, 9] := by
   refine ⟨by decide, by decide, by simp [pairwiseOk]⟩
+
+
+/-- C18 (multisig, parallel): under the caller's contract `1 ≤ len(sigs) ≤ len(keys)` and with
+well-formed keys, the two-ended parallel checker returns the sequential answer **for every arrival
+schedule `σ` of the verification results**; in particular it never blocks, never indexes out of
+range and always terminates within the fuel `len(keys)+2`. -/
+theorem par_eq_seq (ok : Sig → Key → Bool) (bad : Key → Bool) (sigs : List Sig) (keys : List Key)
+    (hm : 1 ≤ sigs.length) (hn : sigs.length ≤ keys.length) (hb : keys.any bad = false) :
+    ∀ σ : Nat → Bool, checkMultisigPar ok bad σ sigs keys = MRes.ofBool (seqMatch ok sigs keys) :=
+  fun σ => par_eq_seq_aux ok bad sigs keys hm hn hb σ
+
+/-- C18 (multisig): the parallel checker accepts exactly when the signatures can be matched to
+keys in order, whatever the schedule. -/
+theorem par_accepts_iff_matching (ok : Sig → Key → Bool) (bad : Key → Bool) (sigs : List Sig) (keys : List Key)
+    (hm : 1 ≤ sigs.length) (hn : sigs.length ≤ keys.length) (hb : keys.any bad = false) (σ : Nat → Bool) :
+    checkMultisigPar ok bad σ sigs keys = MRes.accept ↔ ∃ ks', ks'.Sublist keys ∧ pairwiseOk ok sigs ks' := by
+  rw [par_eq_seq ok bad sigs keys hm hn hb σ, ← greedy_iff]
+  cases seqMatch ok sigs keys <;> simp [MRes.ofBool]
+
+/-- C18 (multisig): the result never depends on the schedule — for all inputs, malformed keys
+included (after the fix that parses all keys before the workers start; with two or more signatures
+any malformed key makes the call panic under every schedule). -/
+theorem par_schedule_independent (ok : Sig → Key → Bool) (bad : Key → Bool) (sigs : List Sig) (keys : List Key) :
+    ∀ σ σ' : Nat → Bool, checkMultisigPar ok bad σ sigs keys = checkMultisigPar ok bad σ' sigs keys :=
+  fun σ σ' => par_independent_aux ok bad sigs keys σ σ'
+
+theorem par_malformed_key_panics (ok : Sig → Key → Bool) (bad : Key → Bool) (sigs : List Sig) (keys : List Key)
+    (hm : 2 ≤ sigs.length) (hn : sigs.length ≤ keys.length) (hb : keys.any bad = true) :
+    ∀ σ : Nat → Bool, checkMultisigPar ok bad σ sigs keys = MRes.panic :=
+  fun σ => par_bad_aux ok bad sigs keys hm hn hb σ
+
+-- non-vacuity: 3-of-5 with a repeated key and an unusable first key, accepted under the two
+-- extreme schedules ("forward result always first" / "backward result always first") …
+example : checkMultisigPar (fun (s k : Nat) => s == k) (fun _ => false) (fun _ => true) [1, 1, 3] [0, 1, 1, 2, 3] = .accept
+    ∧ checkMultisigPar (fun (s k : Nat) => s == k) (fun _ => false) (fun _ => false) [1, 1, 3] [0, 1, 1, 2, 3] = .accept
+    ∧ seqMatch (fun (s k : Nat) => s == k) [1, 1, 3] [0, 1, 1, 2, 3] = true := by decide
+-- … a signature order that cannot be matched is rejected …
+example : checkMultisigPar (fun (s k : Nat) => s == k) (fun _ => false) (fun i => i % 2 == 0) [3, 1] [0, 1, 2, 3] = .reject := by decide
+-- … and the input on which the unfixed code was schedule-dependent (keys K0 BAD K1 K2, three valid
+-- signatures) now panics under both schedules.
+example : checkMultisigPar (fun (s k : Nat) => s == k) (fun k => k == 9) (fun _ => true) [0, 1, 2] [0, 9, 1, 2] = .panic
+    ∧ checkMultisigPar (fun (s k : Nat) => s == k) (fun k => k == 9) (fun _ => false) [0, 1, 2] [0, 9, 1, 2] = .panic := by decide
+
+/-! ## VM integers (pkg/encoding/bigint) -/
+
+/-- C18 (integers): decoding the encoding gives the number back, for every integer. -/
+theorem bigint_from_to (n : Int) : fromBytes (toBytes n) = n := fromBytes_toBytes n
+
+example : toBytes (-129) = [0x7f, 0xff] ∧ fromBytes [0x7f, 0xff] = -129 := by decide
+example : toBytes (2 ^ 255 - 1) = List.replicate 31 0xff ++ [0x7f] := by decide
+
+/-- C18 (integers): the encoding is always in minimal two's-complement little-endian form
+(no redundant sign byte; zero is the empty string). -/
+theorem bigint_to_minimal (n : Int) : minimalB (toBytes n) = true ∧ toBytes 0 = [] :=
+  ⟨minimal_toBytes n, rfl⟩
+
+-- non-vacuity: the predicate does reject redundant sign bytes
+example : minimalB [0x80, 0x00] = true ∧ minimalB [0x7f, 0x00] = false ∧ minimalB [0xff, 0xff] = false
+    ∧ minimalB [0x00] = false := by decide
+
+/-- C18 (integers): a minimal byte string is exactly the encoding of the number it decodes to
+(so the codec is a bijection between integers and minimal strings). -/
+theorem bigint_to_from_minimal (b : Bytes) (h : minimalB b = true) : toBytes (fromBytes b) = b :=
+  toBytes_fromBytes b h
+
+example : minimalB [0x00, 0x80] = true ∧ toBytes (fromBytes [0x00, 0x80]) = [0x00, 0x80] := by decide
+-- and a non-minimal string decodes (the decoder is lenient) but re-encodes shorter
+example : fromBytes [0xff, 0xff] = -1 ∧ toBytes (-1) = [0xff] := by decide
+
+/-- C18 (integers): an integer fits the VM's 32 bytes iff it is in [-2^255, 2^255). -/
+theorem bigint_len_le_32_iff (n : Int) :
+    (toBytes n).length ≤ maxBytesLen ↔ (-(2:Int)^255 ≤ n ∧ n < (2:Int)^255) :=
+  toBytes_length_le_32_iff n
+
+example : (toBytes (-(2:Int)^255)).length = 32 ∧ (toBytes ((2:Int)^255)).length = 33
+    ∧ (toBytes (-(2:Int)^255 - 1)).length = 33 := by decide
+
+/-! ## Merkle root (pkg/crypto/hash/merkle_tree.go) -/
+
+/-- C18 (Merkle): for every node hash `H` and every list of hashes (any length, odd levels
+duplicate their last element) the in-place scratch-buffer version and the tree-building version
+return the recursively defined pairwise root; the tree version fails exactly on the empty list,
+where the in-place version returns the zero hash. -/
+theorem merkle_impls_eq_spec (H : Bytes → Bytes) (hs : List Bytes) :
+    calcMerkleRoot H hs = merkleSpec H hs ∧
+    (hs ≠ [] → treeRoot H hs = some (merkleSpec H hs)) ∧
+    (hs = [] → treeRoot H hs = none ∧ calcMerkleRoot H hs = zero256) := by
+  refine ⟨calcMerkleRoot_eq_spec H hs, treeRoot_eq_spec H hs, ?_⟩
+  intro h; subst h
+  exact ⟨rfl, by simp [calcMerkleRoot]⟩
+
+-- the specification on three leaves: the odd last element is paired with itself
+example (H : Bytes → Bytes) (a b c : Bytes) :
+    merkleSpec H [a, b, c] = H (H (a ++ b) ++ H (c ++ c)) := by
+  simp [merkleSpec, pairUp]
+
+example (H : Bytes → Bytes) (a b c d e : Bytes) :
+    calcMerkleRoot H [a, b, c, d, e]
+      = H (H (H (a ++ b) ++ H (c ++ d)) ++ H (H (e ++ e) ++ H (e ++ e))) := by
+  rw [(merkle_impls_eq_spec H _).1]; simp [merkleSpec, pairUp]
 
 end NeoModel.Codec
